@@ -21,10 +21,48 @@ def finding_key(req, obs, detail):
         # a disagreement that needs several known deviations at once is filed under the first one
         # (the harness only names a deviation when switching it on in the reference reproduces the real output)
         return f"differs-from-C[{m.group(1)}]"
-    return req
+    # (vlib's shrinker accepts any failing candidate when the key of an empty detail is the request itself)
+    return req if detail else "no-oracle-detail"
+
+
+def _balanced(req):
+    """parentheses balanced in every #define line and over every run of text lines: a smaller program that is not is
+    another kind of program (an argument list that begins in a replacement list and ends behind it)"""
+    f = req.split("\t")
+    groups = [[e] for e in f[1].split("|")] if f[1] != "-" else []
+    for ff in f[2:]:
+        run = []
+        for part in ff.split("|")[1:]:
+            if part.startswith("T"):
+                run.append(part)
+            else:
+                groups.append(run)
+                run = []
+                if part.startswith("D"):
+                    groups.append([part])
+        groups.append(run)
+    for g in groups:
+        d = 0
+        for part in g:
+            for t in part.split(" "):
+                if t == "(":
+                    d += 1
+                elif t == ")":
+                    d -= 1
+                    if d < 0:
+                        return False
+        if d != 0:
+            return False
+    return True
 
 
 def shrink(req):
+    for cand in _shrink(req):
+        if _balanced(cand):
+            yield cand
+
+
+def _shrink(req):
     f = req.split("\t")
     # drop one API define
     if f[1] != "-":
